@@ -12,7 +12,7 @@ from ..core import Ctx, Outcome, Violation
 from ..terms import clear_typelib_caches
 
 _N = [0]
-FORMS = ["function", "method", "instance", "class"]
+FORMS = ["function", "method", "instance", "class", "closure"]
 
 
 def tokens(npos_max, names):
@@ -56,39 +56,75 @@ def build_callable(sig, form, toks):
         src = f"class C:\n    def m(self, {params}):\n        'doc of m'\n        return {ret}\nf = C().m\n"
     elif form == "instance":
         src = f"class C:\n    def __call__(self, {params}):\n        'doc of call'\n        return {ret}\nf = C()\n"
+    elif form == "closure":
+        # a factory whose product shares one code object across calls but not its annotations:
+        # first a decoy product (other Enum classes) is bound and called, then the real one
+        ens = ", ".join(sorted(enums)) or "_"
+        decoys = {f"D{k[1:]}": enum.Enum(f"X{k[1:]}", {f"m{j}": t for j, t in enumerate(toks)}, module=modname) for k in enums}
+        mod.__dict__.update(decoys)
+        dec = ", ".join(f"D{k[1:]}" for k in sorted(enums)) or "None"
+        src = (f"def make({ens}):\n    def f({params}):\n        'doc of f'\n        return {ret}\n    return f\n"
+               f"decoy = make({dec})\nf = make({ens if enums else 'None'})\n")
     elif form == "class":
         src = (f"class f:\n    'doc of class'\n    def __init__(self, {params}):\n        self.got = {ret}\n")
-    exec(src, mod.__dict__)
+    exec(compile(src, "<verif-generated>", "exec", dont_inherit=True), mod.__dict__)
     return mod.f, mod, src
+
+
+ALLTOKS = tokens(8, [f"p{i}" for i in range(1, 7)] + ["x1", "x2"])
+_BUILT: dict = {}
+
+
+def _get_built(sig, form, entry):
+    from typelib import binding
+    key = (repr(sig), form, entry)
+    if key not in _BUILT:
+        f, mod, src = build_callable(sig, form, ALLTOKS)
+        meta = True
+        if form == "closure":
+            try:   # warm every memo with the decoy product first
+                d = binding.bind(mod.decoy) if entry == "bind" else binding.wrap(mod.decoy)
+                d(*[f"a{j}" for j in range(1, 9)])
+            except Exception:
+                pass
+        try:
+            if entry == "bind":
+                g = binding.bind(f)
+            else:
+                g = binding.wrap(f)
+                if form in ("function", "method", "closure"):
+                    meta = (getattr(g, "__name__", None) == getattr(f, "__name__", None)
+                            and getattr(g, "__doc__", None) == getattr(f, "__doc__", None)
+                            and getattr(g, "__wrapped__", None) is f)
+            err = None
+        except Exception as e:
+            g, err = None, e
+        # the raw callable for the audit: for classes wrap() patches __init__ in place, so build a twin
+        raw = build_callable(sig, form, ALLTOKS)[0] if form == "class" else f
+        _BUILT[key] = (f, raw, g, err, meta, src)
+    return _BUILT[key]
 
 
 def observe(sig, call, form, entry):
     """Run one call through bind()/wrap(); report where each raw token landed and who converted it."""
-    from typelib import binding
     names = sorted(call["kw"])
     npos = call["npos"]
-    toks = tokens(npos, names)
-    f, mod, src = build_callable(sig, form, toks)
+    f, raw, g, builderr, meta, src = _get_built(sig, form, entry)
     args = [f"a{j}" for j in range(1, npos + 1)]
     kwargs = {n: f"v_{n}" for n in names}
     ev = {"sig": sig, "npos": npos, "kw": names, "form": form, "entry": entry, "res": "ok", "pos": [], "kwobs": [],
           "meta": True}
-    # audit fact: would Python itself accept this call? (compared with the spec's Accepts by the driver)
+    # audit fact: does Python itself accept this call?  (the raw, unbound callable is called;
+    # inspect.Signature.bind is stricter than a real call for positional-only names given **kwargs)
     try:
-        target = f.__init__ if False else f
-        inspect.signature(target).bind(*args, **kwargs)
+        raw(*args, **kwargs)
         ev["py_accepts"] = True
     except TypeError:
         ev["py_accepts"] = False
+    ev["meta"] = meta
     try:
-        if entry == "bind":
-            g = binding.bind(f)
-        else:
-            g = binding.wrap(f)
-            if form != "class":
-                ev["meta"] = (getattr(g, "__name__", None) == getattr(f, "__name__", None)
-                              and getattr(g, "__doc__", None) == getattr(f, "__doc__", None)
-                              and getattr(g, "__wrapped__", None) is f) if form in ("function", "method") else True
+        if builderr is not None:
+            raise builderr
         got = g(*args, **kwargs)
         if form == "class":
             got = got.got
@@ -174,24 +210,27 @@ def run(ctx: Ctx) -> Outcome:
     if pinned.ok or "Refines" not in pinned.stdout:
         raise tlc.MachineryError("Binding model not sensitive: the pinned table must violate Refines")
     # spec -> code: TLC emits every (signature, call) with the reference binding
-    emit_cfg = (base.replace("Emit = FALSE", "Emit = TRUE").replace("MaxParams = 4", "MaxParams = 3")
-                .replace("Unannotated = FALSE", "Unannotated = TRUE"))
-    emit = tlc.must(tlc.run("Binding", cfg_text=emit_cfg, workers=1, timeout=3600), "Binding emit")
-    cases = [p for p in emit.printed if isinstance(p, dict) and "sig" in p]
-    big = []
-    if True:
-        e4 = tlc.must(tlc.run("Binding", cfg_text=base.replace("Emit = FALSE", "Emit = TRUE")
-                              .replace("MaxExtraPos = 2", "MaxExtraPos = 1").replace('{"x1", "x2"}', '{"x1"}'),
-                              workers=1, timeout=3600), "Binding emit 4")
-        big = [p for p in e4.printed if isinstance(p, dict) and "sig" in p and len(p["sig"]) == 4]
-        if quick:
-            big = rng.sample(big, min(len(big), 6000))
+    def emit(mp, unann, extrapos, extras):
+        cfgt = (base.replace("Emit = FALSE", "Emit = TRUE").replace("MaxParams = 4", f"MaxParams = {mp}")
+                .replace("Unannotated = FALSE", "Unannotated = " + ("TRUE" if unann else "FALSE"))
+                .replace("MaxExtraPos = 2", f"MaxExtraPos = {extrapos}").replace('{"x1", "x2"}', extras))
+        r = tlc.must(tlc.run("Binding", cfg_text=cfgt, workers=1, timeout=3600), "Binding emit")
+        cs = [p for p in r.printed if isinstance(p, dict) and "sig" in p]
+        if len(cs) * 2 != r.distinct:
+            raise tlc.MachineryError(f"Binding emit: {len(cs)} cases for {r.distinct} states")
+        return cs
+    if quick:
+        cases = emit(3, False, 1, '{"x1"}') + [c for c in emit(2, True, 1, '{"x1"}') if not all(p["ann"] for p in c["sig"])]
+        big = []
+    else:
+        cases = emit(3, True, 2, '{"x1", "x2"}')
+        big = [c for c in emit(4, False, 1, '{"x1"}') if len(c["sig"]) == 4]
     clear_typelib_caches()
     events, srcs, audit_bad = [], [], []
     plan = []
     for c in cases:
         # unannotated variants only where they matter: keep all, but vary callable form round-robin
-        forms = FORMS if len(c["sig"]) <= 2 or not quick else [rng.choice(FORMS)]
+        forms = FORMS if len(c["sig"]) <= 1 or not quick else ["function", rng.choice(FORMS[1:])]
         for form in forms:
             for entry in ("bind", "wrap"):
                 plan.append((c, form, entry))
